@@ -1,0 +1,53 @@
+//go:build verif
+
+// Export shim for the external verification harness (/verif, property C33). Compiled only with
+// the build tag `verif`. Wrappers around the unexported pending-request getters that the
+// Approve* methods themselves use; no contract logic lives here.
+
+package relayer_manager
+
+import (
+	"github.com/polynetwork/poly/common"
+	"github.com/polynetwork/poly/native"
+)
+
+// VerifRelayerApplyPending returns the address list of pending register request id (ok=false if none).
+func VerifRelayerApplyPending(native *native.NativeService, id uint64) ([]common.Address, bool) {
+	p, err := getRelayerApply(native, id)
+	if err != nil || p == nil {
+		return nil, false
+	}
+	return p.AddressList, true
+}
+
+// VerifRelayerRemovePending returns the address list of pending remove request id (ok=false if none).
+func VerifRelayerRemovePending(native *native.NativeService, id uint64) ([]common.Address, bool) {
+	p, err := getRelayerRemove(native, id)
+	if err != nil || p == nil {
+		return nil, false
+	}
+	return p.AddressList, true
+}
+
+// ---- property C17 part B (storage-key injectivity): thin wrappers of the unexported put/get helpers,
+// used as black-box key constructors. No logic.
+
+func VerifPutRelayer(native *native.NativeService, relayer common.Address) error {
+	return putRelayer(native, relayer)
+}
+
+func VerifPutRelayerApply(native *native.NativeService, p *RelayerListParam) error {
+	return putRelayerApply(native, p)
+}
+
+func VerifPutRelayerRemove(native *native.NativeService, p *RelayerListParam) error {
+	return putRelayerRemove(native, p)
+}
+
+func VerifPutApplyID(native *native.NativeService, id uint64) error { return putApplyID(native, id) }
+
+func VerifPutRemoveID(native *native.NativeService, id uint64) error { return putRemoveID(native, id) }
+
+func VerifGetApplyID(native *native.NativeService) (uint64, error) { return getApplyID(native) }
+
+func VerifGetRemoveID(native *native.NativeService) (uint64, error) { return getRemoveID(native) }
